@@ -73,7 +73,7 @@ pub fn run(tier: Tier, seed: u64) -> i32 {
                 prop: PROP.into(),
                 kind: e.family.into(),
                 label: format!("{} @ {}", e.label, l.name),
-                files: vec![("f".into(), rendered.text)],
+                files: vec![(if i % 16 == 15 { "@file:f" } else { "f" }.into(), rendered.text)],
                 expect: json!({"parse": proj_doc(&e.doc, false), "valid": proj_doc(&e.doc, true)}),
             })
         },
